@@ -23,8 +23,17 @@ def gen(rng, tier):
         elif kind == "diffgraph" and G["edges"]:
             e = [list(x) for x in G["edges"]]; e[rng.randrange(len(e))][2] += 1
             G2 = dict(G); G2["edges"] = e
-        cases.append({"G": G, "G2": G2, "D1": D1, "D2": D2, "kind": kind, "fam": fam, "s": rng.randrange(1 << 30),
-                      "moves": [rng.randrange(n) for _ in range(rng.randint(0, 4))]})
+        c = {"G": G, "G2": G2, "D1": D1, "D2": D2, "kind": kind, "fam": fam, "s": rng.randrange(1 << 30),
+             "moves": [rng.randrange(n) for _ in range(rng.randint(0, 4))]}
+        if kind in ("fired", "samedeg") and n >= 3:
+            # a twin: the same names and the same valence at every name, another adjacency (two vertices of equal valence exchange their places); the same
+            # two chip vectors are asked about on both graphs within one process
+            M = common.matrix(G); val = [sum(r) for r in M]; pairs = [(u, v) for u in range(n) for v in range(u + 1, n) if val[u] == val[v]]
+            if pairs:
+                u, v = rng.choice(pairs); sw = lambda x: v if x == u else u if x == v else x
+                T = common.mk_graph_like(G, [[sw(a), sw(b), k] for a, b, k in G["edges"]])
+                if T["edges"] != G["edges"]: c["twin"] = T
+        cases.append(c)
     return cases
 
 def impl(c):
@@ -66,10 +75,15 @@ def impl(c):
     d1b = common.build_impl_divisor(G, c["D1"], rng=rng) if rng.random() < 0.6 else common.arith_divisor(G, c["D1"], rng)      # arguments that are results of k*H + R, A - B, -(-D)
     d2b = common.build_impl_divisor(c["G2"], c["D2"], rng=rng) if rng.random() < 0.6 else common.arith_divisor(c["G2"], c["D2"], rng)
     b = bool(linear_equivalence(d2b, d1b))
-    return {"fwd": a, "bwd": b}
+    out = {"fwd": a, "bwd": b}
+    if c.get("twin") and c["G2"] == c["G"]:
+        T = c["twin"]; out["twin"] = bool(linear_equivalence(common.build_impl_divisor(T, c["D1"], rng=rng), common.build_impl_divisor(T, c["D2"], rng=rng)))
+    return out
 
 def model_lines(c):
-    return [["lineq"] + common.enc_graph(c["G"]) + common.enc_list(c["D1"]) + common.enc_graph(c["G2"]) + common.enc_list(c["D2"])]
+    ls = [["lineq"] + common.enc_graph(c["G"]) + common.enc_list(c["D1"]) + common.enc_graph(c["G2"]) + common.enc_list(c["D2"])]
+    if c.get("twin"): ls.append(["lineq"] + common.enc_graph(c["twin"]) + common.enc_list(c["D1"]) + common.enc_graph(c["twin"]) + common.enc_list(c["D2"]))
+    return ls
 
 def judge(c, r, mo):
     if "exc" in r: return [{"what": "implementation raised %s: %s" % (r["exc"], r.get("msg"))}]
@@ -78,12 +92,18 @@ def judge(c, r, mo):
     if "genus_now" in r["ok"] and r["ok"]["genus_now"] != common.genus(c["G"]): out.append({"what": "after growing the graph edge by edge get_genus() = %s, the genus is %d" % (r["ok"]["genus_now"], common.genus(c["G"]))})
     for k in ("fwd", "bwd"):
         if r["ok"][k] != want: out.append({"what": "linear_equivalence (%s, kind=%s) returned %s, the verified model says %s" % (k, c["kind"], r["ok"][k], want)})
+    if "twin" in r["ok"] and len(mo) > 1 and mo[1][0] != "FUEL" and r["ok"]["twin"] != (mo[1][0] == "1"):
+        out.append({"what": "the same two chip vectors on a twin graph (same names and valences, edges %s): linear_equivalence returned %s, the verified model says %s" % (c["twin"]["edges"], r["ok"]["twin"], mo[1][0] == "1")})
     return out[:1]
 
 def oracle(c, r):
     if r is None or "exc" in r: return {"violates": True, "why": "no result"}
     truth = c["G"]["edges"] == c["G2"]["edges"] and O.lin_equiv(O.mk(c["G"]), c["D1"], c["D2"])
-    bad = {k: v for k, v in r["ok"].items() if v != truth}
+    bad = {k: v for k, v in r["ok"].items() if k in ("fwd", "bwd") and v != truth}
+    if "twin" in r["ok"] and c.get("twin"):
+        t2 = O.lin_equiv(O.mk(c["twin"]), c["D1"], c["D2"])
+        if r["ok"]["twin"] != t2: bad["twin"] = r["ok"]["twin"]
+    if "genus_now" in r["ok"] and r["ok"]["genus_now"] != common.genus(c["G"]): bad["genus_now"] = r["ok"]["genus_now"]
     return {"violates": bool(bad), "truth": truth, "wrong": bad}
 
 def nontrivial(cases):
